@@ -89,7 +89,7 @@ PROPS["C02"] = {
 PROPS["C04"] = {
     "level": "fault_enumeration",
     "technique": "generated histories and crash images (rapid + crash-point enumeration) judged by a structural checker (fsck) over the logical disk, built on the repository's own decoders",
-    "level_text": "fsck (pointers in the data region, single ownership incl. indirect blocks and half-freed inodes, owned => marked, inode bitmap <=> kind, tree with exactly one name per live object, unique well-formed names, '.'/'..', sizes vs mapped blocks, allocators = bitmaps) runs (a) at every 8th step and at the end of generated sequential histories with deep trees, renames, removes, truncations, clean restarts and shrinker-interrupting stops, (b) on the recovered logical disk of every explored crash image of generated programs that create, truncate and remove files large enough for multi-transaction frees.",
+    "level_text": "fsck (pointers in the data region, single ownership incl. indirect blocks and half-freed inodes, owned => marked, inode bitmap <=> kind, tree with exactly one name per live object, unique well-formed names, '.'/'..', sizes vs mapped blocks, allocators = bitmaps) runs (a) at every 8th step and at the end of generated sequential histories with deep trees, renames, removes, truncations, clean restarts and shrinker-interrupting stops, (b) on the recovered logical disk of every explored crash image of generated programs that create, truncate and remove files large enough for multi-transaction frees, (c) on nearly-full disks, (d) on disks with two and three block-bitmap blocks (33468-66436 blocks): files are written until allocation is well inside the later bitmap blocks, some are removed, the server restarts (cleanly or with the shrinker interrupted; the allocators are rebuilt from all bitmap blocks), more files are written; fsck (exact, allocators = bitmaps) and the bytes of every file are checked after every round.",
     "level_note": "Sampled histories; crash points enumerated per trace (quick <=250, thorough all). The checker reads through the server's own journal object; it trusts super/inode/dirent decoders of the repository (format changes made consistently raise no alarm). Reply mismatches are C02's subject and only cut the case short here.",
     "rule": ("unit = one fsck run (quiescent state of a sequential history, or recovered crash image). Non-trivial: the state has >=3 directories and >=1 indirect block, or the crash image contains a half-freed inode. "
              "distinct = FNV hash of the history (sequential) or of (program, crash point, variant)."),
@@ -125,7 +125,7 @@ PROPS["C05"] = {
 PROPS["C12"] = {
     "level": "fault_enumeration",
     "technique": "generated block-recycling histories (rapid) with tagged data against the reference model (oracle: only unexpected non-zero bytes count) plus a scan that every free block on the logical disk is zero; the same two oracles on enumerated crash images",
-    "level_text": "Sequential: on a small data region (300-900 blocks, so freed blocks are soon handed out again; restarts reset the allocator cursor) files are filled with recognisable per-write patterns, removed, shrunk to aligned and unaligned sizes, grown again, poked with partial-block writes and writes beyond the end, and read back completely; a READ or whole-tree comparison that shows a non-zero byte where the reference has none (hole, gap, re-grown region, other file's data) is a violation, and every 6th step fsck checks that every block free in the bitmap is all-zero. Crash: every explored image of generated programs (incl. multi-transaction frees) gets the free-block scan, the matched reference state is compared byte-wise, and files are grown over positions that held data earlier in the run and must read zero.",
+    "level_text": "Sequential: on a small data region (300-900 blocks, so freed blocks are soon handed out again; restarts reset the allocator cursor) files are filled with recognisable per-write patterns, removed, shrunk to aligned and unaligned sizes, grown again, poked with partial-block writes and writes beyond the end, and read back completely; a READ or whole-tree comparison that shows a non-zero byte where the reference has none (hole, gap, re-grown region, other file's data) is a violation, and every 6th step fsck checks that every block free in the bitmap is all-zero. Crash: every explored image of generated programs (incl. multi-transaction frees) gets the free-block scan, the matched reference state is compared byte-wise, and files are grown over positions that held data earlier in the run and must read zero. A directed action cuts a file too large for one transaction (mostly to exactly 0), stops the server with the shrinker interrupted, removes or renames over the file, and grows and reads new files that reuse the inode number. The nearly-full-disk unit also reads holes (incl. the first blocks under missing index blocks with 1-3 blocks free) and writes, in 1/5 of its writes, data that reads like an index block, so that a dangling index pointer shows other files' bytes instead of an invalid block number.",
     "level_note": "Lost data (zero where bytes were written) and status mismatches are other properties' subjects and only cut the case short. Sampled histories; crash points enumerated per trace (quick <=150, thorough all).",
     "rule": ("unit = one recycling history or one recovered crash image. Non-trivial: a block number freed earlier in the case is in use again (measured from successive fsck ownership sets), or an unaligned shrink was followed by growth of the same file; crash image: contains a half-freed inode or >=3 directories and an indirect block. "
              "distinct = FNV hash of the history resp. (program, crash point, variant)."),
@@ -191,11 +191,11 @@ PROPS["C11"] = {
 PROPS["C13"] = {
     "level": "exploration",
     "technique": "generated directories and paging sessions (rapid) with an incarnation-set oracle (exactly-once for entries present throughout, validity of every returned entry against the reference, progress, termination, exact replay from earlier cookies); concurrent enumerate-while-mutating variant",
-    "level_text": "Directories of 0..150 entries with names of 2..112 bytes, freed slots in the middle and slot reuse, optionally after a restart; sessions page READDIR or READDIRPLUS with count/dircount/maxcount from {0,1,10,64,100,200,300,512,1000,4096,65536}, always passing back the last cookie, with entries added and removed between pages in a third of the sessions. Oracle: every call returns an entry or eof; the session ends within slots+200 calls; every returned (name, file id[, handle, attributes]) is that of the object the name has at that moment in the reference; every entry that stays in the directory throughout is returned exactly once. Without mutations, resuming from three earlier cookies (with other size limits) must reproduce exactly the entries that followed. Concurrent unit: a READDIR client enumerates four times while a second client creates and removes other names (reusing freed slots); entries it never touches must each appear exactly once per enumeration.",
+    "level_text": "Directories of 0..150 entries with names of 2..112 bytes, freed slots in the middle and slot reuse, optionally after a restart; sessions page READDIR or READDIRPLUS with count/dircount/maxcount from {0,1,10,64,100,200,300,512,1000,4096,65536}, always passing back the last cookie, with entries added and removed between pages in a third of the sessions. Oracle: every call returns an entry or eof; the session ends within slots+200 calls; every returned (name, file id[, handle, attributes]) is that of the object the name has at that moment in the reference; every entry that stays in the directory throughout is returned exactly once. Without mutations, resuming from three earlier cookies (with other size limits) must reproduce exactly the entries that followed. Concurrent unit: a READDIR client enumerates four times while a second client creates and removes other names (reusing freed slots); entries it never touches must each appear exactly once per enumeration. Directories of 520 and 700 names of 100-112 bytes (more than any reply or internal listing budget) are enumerated after a restart or cache eviction, and every listed entry is cross-checked with LOOKUP of its name (same file id).",
     "level_note": "Not asserted: that a name appears only once when it was removed and re-created during the enumeration, or that a reply fits in count bytes. The concurrent unit uses READDIR only (READDIRPLUS under concurrency is known finding KF1).",
     "rule": ("unit = one paging session (or one concurrent enumeration). Non-trivial: the session took >=3 pages or had a mutation between pages; concurrent: always (mutator active). distinct = FNV hash of (history, session index)."),
     "assumptions": COMMON_ASSUMPTIONS,
-    "required_classes": ["session_of_3_or_more_pages", "session_with_mutations_between_pages", "session_readdirplus", "resumed_from_an_earlier_cookie", "enumerations_during_concurrent_updates"],
+    "required_classes": ["directory_of_500_or_more_long_names", "session_of_3_or_more_pages", "session_with_mutations_between_pages", "session_readdirplus", "resumed_from_an_earlier_cookie", "enumerations_during_concurrent_updates"],
     "units": [
         {"test": "^TestRegressC13$", "norapid": True, "quick": {"shards": 1}, "thorough": {"shards": 1}},
         {"test": "^TestC13Paging$", "quick": {"checks": 80, "shards": 8}, "thorough": {"checks": 1500, "shards": 12}},
@@ -285,11 +285,11 @@ CONC_ASSUMPTIONS = COMMON_ASSUMPTIONS + [
 PROPS["C03"] = {
     "level": "exploration",
     "technique": "generated concurrent programs (rapid) for 2-4 clients over a tiny shared namespace, executed with real goroutines (direct and over the RPC transport) with seeded yield injection at lock and commit points; linearizability decided by porcupine against a compact sequential model, with a final whole-state observation appended to every history",
-    "level_text": "Programs of 3-8 operations per client over three shared directories with three file names and two directory names each, and two shared regular files: create/remove races on the same names, renames over existing targets within and across directories (files), directory renames within a parent, concurrent write/truncate/read/getattr of one file (incl. truncations large enough for the background shrinker), LOOKUP and READDIR during updates; in half of the cases the inode numbers are arranged so that children are numbered below their directories (retry paths). Every reply (status, handle, file id, type, size incl. post-operation attributes, data, listing) and a final observation of every name and file must be explained by one sequential order that respects real-time order.",
-    "level_note": "Schedules are sampled, not enumerated. porcupine time-outs (none expected at this size) are counted, not judged. Hangs and panics are reported by the C06 and C11 checks.",
+    "level_text": "Programs of 3-8 operations per client over three shared directories with three file names and two directory names each, and two shared regular files: create/remove races on the same names, renames over existing targets within and across directories (files), directory renames within a parent, concurrent write/truncate/read/getattr of one file (incl. truncations large enough for the background shrinker), LOOKUP and READDIR during updates; in half of the cases the inode numbers are arranged so that children are numbered below their directories (retry paths). Every reply (status, handle, file id, type, size incl. post-operation attributes, data, listing) and a final observation of every name and file must be explained by one sequential order that respects real-time order. READDIRPLUS of the root (the one directory all of whose entries follow it in the lock order) is part of the programs: its names, the handles of the contended names and the size it reports for one shared file are judged by the model. The enumeration also starts from a state in which the lowest free inode number belongs to a removed 600-block file whose freeing was interrupted (the next CREATE/MKDIR has to finish it, dropping its directory lock meanwhile), with the first twelve lock/commit points as pause points.",
+    "level_note": "Schedules are sampled, not enumerated. porcupine time-outs (none expected at this size) are counted, not judged. Hangs and panics are reported by the C06 and C11 checks. Known finding KF4 (the attributes of two different files in one READDIRPLUS listing are not a snapshot) is probed deterministically at the start and printed as KNOWN-FINDING; by construction the model judges the size of one file per listing only, the other file's sizes are counted (readdirplus_sizes_of_a_second_file_not_judged_KF4).",
     "rule": ("unit = one concurrent history. Non-trivial: at least two operations of different clients overlap in time and touch a common name or file (measured from the recorded stamps). distinct = FNV hash of the history."),
     "assumptions": CONC_ASSUMPTIONS,
-    "required_classes": ["history_with_overlapping_conflicting_operations", "history_with_injected_yields", "history_with_children_numbered_below_parents", "history_with_shrinker_sized_truncations", "history_via_rpc",
+    "required_classes": ["enumerated_cases_starting_with_a_half_freed_inode", "history_with_overlapping_conflicting_operations", "history_with_injected_yields", "history_with_children_numbered_below_parents", "history_with_shrinker_sized_truncations", "history_via_rpc",
                          "history_with_a_client_held_at_a_lock_or_commit_point", "window_history_with_conflict_while_a_client_is_held", "window_history_on_a_full_disk", "enumerated_cases_in_which_the_pause_point_was_reached"],
     "units": [
         {"test": "^TestC03Linearizable$", "quick": {"checks": 400, "shards": 8}, "thorough": {"checks": 20000, "shards": 8, "timeout": 7200}},
